@@ -1,4 +1,5 @@
 import BPT.Props.C04
+import BPT.Rust.Churn
 /-
   C06 — Rust node arenas: allocated slots equal reachable nodes; freed slots are reused.
 
@@ -97,5 +98,134 @@ theorem count_nodes_eq_allocated (s : RState K V) (hs : SInv s) (hsm : Small s) 
     (view s).countNodes = .ok ((view s).leaves.len, (view s).branches.len) := by
   obtain ⟨_, _, h1, h2⟩ := view_arenas s hs hsm
   rw [view_countNodes s hs hsm, h1, h2]
+
+/-! ### churn: the slot total never exceeds the largest number of simultaneously live nodes -/
+
+/-- a history with a ghost pair: the largest numbers of leaves / branches live at the same time since
+    construction or the last `clear` -/
+def peakStep (p : RState K V × (Nat × Nat)) (op : C01.Op K V) : Option (RState K V × (Nat × Nat)) :=
+  (C01.step p.1 op).map fun r =>
+    match op with
+    | .clear => (r.1, (liveLeaves r.1, liveBranches r.1))
+    | _ => (r.1, (max p.2.1 (liveLeaves r.1), max p.2.2 (liveBranches r.1)))
+
+def peakRun (cap : Nat) (ops : List (C01.Op K V)) : Option (RState K V × (Nat × Nat)) :=
+  ops.foldl (fun acc op => acc.bind fun p => peakStep p op) (some ((freshState cap : RState K V), (1, 0)))
+
+theorem links_setRec_live (s : RState K V) (k : K) (v : V) :
+    liveLeaves (getMutWrite s k v).1 = liveLeaves s ∧ liveBranches (getMutWrite s k v).1 = liveBranches s ∧
+    (getMutWrite s k v).1.al = s.al := by
+  unfold getMutWrite
+  cases get s k with
+  | none => exact ⟨rfl, rfl, rfl⟩
+  | some p =>
+    obtain ⟨e1, e2⟩ := links_setRec s.height s.root k v
+    refine ⟨?_, ?_, rfl⟩
+    · show (leaves s.height (setRec s.height s.root k v)).length = (leaves s.height s.root).length
+      have := congrArg List.length e1
+      simpa [links] using this
+    · show (bids s.height (setRec s.height s.root k v)).length = _
+      rw [e2]; rfl
+
+/-- **churn bound**: along every history from `new(cap)`, `cap ≥ 4`, each arena's storage length is at most
+    the largest number of its nodes that were live at the same time since construction or the last `clear`:
+    freed slots are reused before an arena grows -/
+theorem slots_le_peak_live (cap : Nat) (hcap : 4 ≤ cap) (ops : List (C01.Op K V)) (s : RState K V) (M : Nat × Nat)
+    (h : peakRun cap ops = some (s, M)) :
+    SInv s ∧ s.al.leaf.len ≤ M.1 ∧ s.al.branch.len ≤ M.2 ∧ liveLeaves s ≤ M.1 ∧ liveBranches s ≤ M.2 := by
+  unfold peakRun at h
+  suffices H : ∀ (ops : List (C01.Op K V)) (p : RState K V × (Nat × Nat)),
+      (SInv p.1 ∧ p.1.al.leaf.len ≤ p.2.1 ∧ p.1.al.branch.len ≤ p.2.2 ∧ liveLeaves p.1 ≤ p.2.1 ∧ liveBranches p.1 ≤ p.2.2) →
+      ∀ q, ops.foldl (fun acc op => acc.bind fun p => peakStep p op) (some p) = some q →
+      (SInv q.1 ∧ q.1.al.leaf.len ≤ q.2.1 ∧ q.1.al.branch.len ≤ q.2.2 ∧ liveLeaves q.1 ≤ q.2.1 ∧ liveBranches q.1 ≤ q.2.2) by
+    exact H ops _ ⟨sinv_fresh cap hcap, by simp [freshState], by simp [freshState],
+      by simp [liveLeaves, freshState, leaves], by simp [liveBranches, freshState, bids]⟩ (s, M) h
+  intro ops
+  induction ops with
+  | nil => intro p hp q hq; simp only [List.foldl_nil, Option.some.injEq] at hq; rw [← hq]; exact hp
+  | cons op ops ih =>
+    intro p hp q hq
+    simp only [List.foldl_cons, Option.bind_some] at hq
+    cases hst : peakStep p op with
+    | none =>
+      rw [hst] at hq
+      have : ∀ (l : List (C01.Op K V)), l.foldl (fun acc op => acc.bind fun p => peakStep p op) (none : Option (RState K V × (Nat × Nat))) = none := by
+        intro l; induction l with
+        | nil => rfl
+        | cons a l ihl => simp [List.foldl_cons, ihl]
+      rw [this] at hq; cases hq
+    | some p1 =>
+      rw [hst] at hq
+      refine ih p1 ?_ q hq
+      obtain ⟨hs, h1, h2, h3, h4⟩ := hp
+      unfold peakStep at hst
+      cases hcs : C01.step p.1 op with
+      | none => rw [hcs] at hst; cases hst
+      | some r =>
+        rw [hcs] at hst
+        simp only [Option.map_some, Option.some.injEq] at hst
+        have hs1 : SInv r.1 := C02.step_sinv p.1 op hs r.1 r.2 (by rw [hcs])
+        cases op with
+        | insert k v =>
+          subst hst
+          simp only [C01.step] at hcs
+          cases hin : insert p.1 k v with
+          | none => rw [hin] at hcs; cases hcs
+          | some x =>
+            rw [hin] at hcs
+            simp only [Option.map_some, Option.some.injEq] at hcs
+            have := insert_len_le p.1 x.1 k v x.2 hs hin
+            rw [← hcs]
+            refine ⟨by rw [← hcs] at hs1; exact hs1, ?_, ?_, Nat.le_max_right _ _, Nat.le_max_right _ _⟩
+            · show x.1.al.leaf.len ≤ max p.2.1 (liveLeaves x.1)
+              have := this.1; omega
+            · show x.1.al.branch.len ≤ max p.2.2 (liveBranches x.1)
+              have := this.2; omega
+        | remove k =>
+          subst hst
+          simp only [C01.step] at hcs
+          cases hre : remove p.1 k with
+          | none => rw [hre] at hcs; cases hcs
+          | some x =>
+            rw [hre] at hcs
+            simp only [Option.map_some, Option.some.injEq] at hcs
+            have := remove_lens p.1 x.1 k x.2 hs hre
+            rw [← hcs]
+            refine ⟨by rw [← hcs] at hs1; exact hs1, ?_, ?_, Nat.le_max_right _ _, Nat.le_max_right _ _⟩
+            · show x.1.al.leaf.len ≤ max p.2.1 (liveLeaves x.1)
+              have := this.1; omega
+            · show x.1.al.branch.len ≤ max p.2.2 (liveBranches x.1)
+              have := this.2; omega
+        | clear =>
+          subst hst
+          simp only [C01.step, Option.some.injEq] at hcs
+          rw [← hcs]
+          exact ⟨by rw [← hcs] at hs1; exact hs1, by simp [clear, freshState, liveLeaves, leaves],
+            by simp [clear, freshState, liveBranches, bids], Nat.le_refl _, Nat.le_refl _⟩
+        | getMut k v =>
+          subst hst
+          simp only [C01.step, Option.some.injEq] at hcs
+          obtain ⟨e1, e2, e3⟩ := links_setRec_live p.1 k v
+          rw [← hcs]
+          refine ⟨by rw [← hcs] at hs1; exact hs1, ?_, ?_, Nat.le_max_right _ _, Nat.le_max_right _ _⟩
+          · show (getMutWrite p.1 k v).1.al.leaf.len ≤ max p.2.1 _
+            rw [e3]; omega
+          · show (getMutWrite p.1 k v).1.al.branch.len ≤ max p.2.2 _
+            rw [e3]; omega
+        | get k =>
+          simp only [] at hst; subst hst; simp only [C01.step, Option.some.injEq] at hcs; rw [← hcs]
+          exact ⟨hs, Nat.le_trans h1 (Nat.le_max_left _ _), Nat.le_trans h2 (Nat.le_max_left _ _), Nat.le_max_right _ _, Nat.le_max_right _ _⟩
+        | containsKey k =>
+          simp only [] at hst; subst hst; simp only [C01.step, Option.some.injEq] at hcs; rw [← hcs]
+          exact ⟨hs, Nat.le_trans h1 (Nat.le_max_left _ _), Nat.le_trans h2 (Nat.le_max_left _ _), Nat.le_max_right _ _, Nat.le_max_right _ _⟩
+        | getOrDefault k d =>
+          simp only [] at hst; subst hst; simp only [C01.step, Option.some.injEq] at hcs; rw [← hcs]
+          exact ⟨hs, Nat.le_trans h1 (Nat.le_max_left _ _), Nat.le_trans h2 (Nat.le_max_left _ _), Nat.le_max_right _ _, Nat.le_max_right _ _⟩
+        | len =>
+          simp only [] at hst; subst hst; simp only [C01.step, Option.some.injEq] at hcs; rw [← hcs]
+          exact ⟨hs, Nat.le_trans h1 (Nat.le_max_left _ _), Nat.le_trans h2 (Nat.le_max_left _ _), Nat.le_max_right _ _, Nat.le_max_right _ _⟩
+        | isEmpty =>
+          simp only [] at hst; subst hst; simp only [C01.step, Option.some.injEq] at hcs; rw [← hcs]
+          exact ⟨hs, Nat.le_trans h1 (Nat.le_max_left _ _), Nat.le_trans h2 (Nat.le_max_left _ _), Nat.le_max_right _ _, Nat.le_max_right _ _⟩
 
 end BPT.Props.C06
